@@ -313,8 +313,9 @@ class Runner:
             elif name == "add":
                 if len(self.tasks) >= self.H - 1:
                     return True  # a progress table taller than the screen is documented to scroll away (DESIGN 7.11)
-                tid = d.add_task(op[1], total=10, visible=op[2])
-                self.tasks.append([tid, op[1], 0, op[2]])
+                d.add_task(op[1], total=10, visible=op[2])
+                # task identity follows the public task list (a failed add_task does not advance the task index, so ids can be reused)
+                self.tasks = [[t.id, t.description, int(t.completed), t.visible] for t in d.tasks]
             elif name in ("advance", "visible", "remove"):
                 if not self.tasks:
                     return True
@@ -324,8 +325,8 @@ class Runner:
                     t[2] += op[2]
                     return self.sync(op, top)
                 if name == "visible":
+                    t[3] = op[2]  # the flag is set before the optional refresh (which may raise in a fault run)
                     d.update(t[0], visible=op[2], refresh=op[3])
-                    t[3] = op[2]
                     if not op[3]:
                         return self.sync(op, top)
                 else:
@@ -369,6 +370,9 @@ class Runner:
                 self.dead_screen = True
                 self.ctx.cls("render-fault-in-stop")
                 return self.sync(op, 0)
+            if name == "add":
+                # add_task registers the task before its refresh can fail: follow the public task list
+                self.tasks = [[t.id, t.description, int(t.completed), t.visible] for t in d.tasks]
             if printed_text is not None:
                 # keep the plain console's state (log time column) in step with the console under test
                 if name == "print":
